@@ -671,6 +671,39 @@ ValRuns(n, o) ==
             (IF nd.disp = 0 THEN {} ELSE NodesOf(Visit(nd.disp, o2))) \cup (IF sel.ok THEN ValRuns(sel.n, o2) ELSE {})
       [] nd.k = "fnapp" -> UNION {ValRuns(nd.args[i], o) : i \in 1 .. Len(nd.args)}
 
+\* Iter and Map evaluate to ONE-SHOT iterators.  Lazy(n, o): the Python value of n is, or contains, such an
+\* iterator (a body / apply function consumes the iterators it is given, so its result is not lazy).  A cache
+\* that stores a lazy value hands out an exhausted iterator the second time: what re-evaluation then yields is
+\* outside every statement, and the conformance step skips histories on graphs where CachesLazy holds.
+RECURSIVE Lazy(_, _)
+Lazy(n, o) ==
+    LET nd == NodeRec(n)
+        Sel(m) == IF m = 0 THEN FALSE ELSE Lazy(m, o) IN
+    CASE nd.k = "coll" -> nd.c = "iter" \/ (nd.c \in {"list", "tuple", "dict"} /\ \E i \in 1 .. Len(nd.ms) : Lazy(nd.ms[i], o))
+      [] nd.k = "map" -> TRUE
+      [] nd.k = "opt" -> ~Has(nd.p, o) /\ Sel(nd.d)
+      [] nd.k = "bind" ->
+            LET s == Eval(nd.src, o) IN
+            s.ok /\ LET hit == TabFind(nd.lk, s.v) IN Sel(IF hit # 0 THEN hit ELSE nd.other)
+      [] nd.k = "switch" ->
+            LET dv == Eval(nd.d, o) IN
+            IF ~dv.ok THEN Sel(nd.dflt)
+            ELSE Hashable(dv.v) /\ LET hit == TabFind(nd.lk, dv.v) IN Sel(IF hit # 0 THEN hit ELSE nd.dflt)
+      [] nd.k = "case" -> \E i \in 1 .. Len(nd.cases) : Lazy(nd.cases[i].n, o) \/ Sel(nd.dflt)      \* any branch (over-approximation)
+      [] nd.k = "coalesce" -> \E i \in 1 .. Len(nd.ms) : Lazy(nd.ms[i], o)                        \* any member (over-approximation)
+      [] nd.k = "with" -> Lazy(nd.inner, Overlay(nd, o))
+      [] nd.k = "cached" -> Lazy(nd.inner, o)
+      [] nd.k = "ds" ->
+            LET o2 == DsOptions(nd, o) sel == DsSelect(nd, o2) IN
+            sel.ok /\ nd.cb = "" /\ NodeRec(sel.n).k # "fnapp" /\ Lazy(sel.n, o2)
+      [] OTHER -> FALSE
+
+CachesLazy(n, o) ==
+    \E x \in Visit(n, o) :
+        LET nd == NodeRec(x.n) IN
+        \/ nd.k = "cached" /\ Lazy(nd.inner, x.o)
+        \/ nd.k = "ds" /\ Lazy(x.n, x.o)
+
 \* permitted body runs per dataset node in ONE evaluation with cold caches: one per distinct demand
 Permit(n, o) ==
     LET ds == Dem(n, o)
